@@ -285,3 +285,878 @@ def close(x, q, tol):
 def cyc(f):
     k = f.index(min(f))
     return tuple(f[k:] + f[:k])
+
+
+# ---------------------------------------------------------------------------------------------------
+# reference model
+def model_map(ev, V):
+    """-> (new vertex list, operation is exact on dyadic input)"""
+    kind = ev[0]
+    if kind == "translate":
+        t = TVEC[ev[2]]
+        return [(p[0] + t[0], p[1] + t[1], p[2] + t[2]) for p in V], True
+    if kind == "rotate":
+        _, mat, og, _ = rot_spec(ev[2])
+        o = og or (0, 0, 0)
+        out = []
+        for p in V:
+            d = (p[0] - o[0], p[1] - o[1], p[2] - o[2])
+            out.append(tuple(o[r] + mat[r][0] * d[0] + mat[r][1] * d[1] + mat[r][2] * d[2] for r in range(3)))
+        return out, False
+    if kind == "scale":
+        s, og = SCALES[ev[2]]
+        o = og or (0, 0, 0)
+        return [tuple(o[r] + s * (p[r] - o[r]) for r in range(3)) for p in V], True
+    if kind == "scale_xyz":
+        f, og = XYZ[ev[2]]
+        o = og or (0, 0, 0)                       # docstring: "If not provided, it is set at (0,0,0)"
+        return [tuple(o[r] + f[r] * (p[r] - o[r]) for r in range(3)) for p in V], True
+    if kind == "normalize":
+        mn = [min(p[r] for p in V) for r in range(3)]
+        mx = [max(p[r] for p in V) for r in range(3)]
+        ext = max(mx[r] - mn[r] for r in range(3))
+        if ev[2]:
+            c = [(mn[r] + mx[r]) / 2 for r in range(3)]
+            return [tuple((p[r] - c[r]) * 2 / ext for r in range(3)) for p in V], False
+        return [tuple((p[r] - mn[r]) / ext for r in range(3)) for p in V], False
+    if kind == "to_origin":
+        n = len(V)
+        g = [sum(p[r] for p in V) / n for r in range(3)]
+        return [tuple(p[r] - g[r] for r in range(3)) for p in V], False
+    if kind == "flatten":
+        d = ev[2]
+        return [tuple(Fr(0) if r == d else p[r] for r in range(3)) for p in V], True
+    raise AssertionError(ev)
+
+
+def zero_extent(V):
+    return all(max(p[r] for p in V) == min(p[r] for p in V) for r in range(3))
+
+
+def is_inverse(a, b):
+    if a is None or a[0] != b[0] or a[1] != b[1]:
+        return False
+    k = a[0]
+    if k == "translate":
+        return {a[2], b[2]} in ({"T0", "T0n"}, {"T1", "T1n"})
+    if k == "scale":
+        return {a[2], b[2]} in ({"2", "half"}, {"2@o", "half@o"})
+    if k == "scale_xyz":
+        return {a[2], b[2]} in ({"A", "Ainv"}, {"A@o", "Ainv@o"})
+    if k == "rotate":
+        _, ma, oa, ka = rot_spec(a[2])
+        _, mb, ob, kb = rot_spec(b[2])
+        if oa != ob:
+            return False
+        if ka.startswith("ax") and kb.startswith("ax"):
+            return _transpose(ma) == mb
+        return {ka, kb} == {"g+", "g-"}
+    return False
+
+
+PRIMITIVE = {"translate": "transform.translate", "normalize": "transform.translate", "to_origin": "transform.translate",
+             "flatten": "transform.flatten", "rotate": "transform.rotate", "scale": "transform.scale",
+             "scale_xyz": "transform.scale_xyz"}
+CALLEE = {"translate": "transform.translate", "normalize": "transform.normalize", "to_origin": "transform.translate_to_origin",
+          "flatten": "transform.flatten", "rotate": "transform.rotate", "scale": "transform.scale",
+          "scale_xyz": "transform.scale_xyz", "copy": "mesh.copy", "merge": "mesh.merge", "touch": "connectivity"}
+TRANSFORMS = ("translate", "rotate", "scale", "scale_xyz", "normalize", "to_origin", "flatten")
+
+
+def param_class(ev):
+    k = ev[0]
+    if k == "rotate":
+        form, _, og, key = rot_spec(ev[2])
+        return "rot=" + {"m": "matrix", "o": "Rotation", "e": "euler_list", "t": "euler_tuple"}[form] + \
+               (":generic" if key[0] == "g" else ":axis") + (":orig=given" if og else ":orig=None")
+    if k in ("scale", "scale_xyz"):
+        return "orig=given" if ev[2].endswith("@o") else "orig=None"
+    if k == "normalize":
+        return "center_at_zero=%s" % ev[2]
+    if k == "flatten":
+        return "dim=given"
+    return "any"
+
+
+# ---------------------------------------------------------------------------------------------------
+class Live:
+    __slots__ = ("real", "label", "kind", "parents", "V", "el", "mtype", "exact", "tol", "attrs")
+
+
+class Caller:
+    __slots__ = ("arr", "snap", "owner", "label")
+
+
+class Ctx:
+    def __init__(self, d):
+        self.dir = d
+
+
+class St:
+    def __init__(self):
+        self.live = []
+        self.callers = []
+        self.links = []          # (node, node, label); node = ("m", i) | ("c", k)
+        self.prev = None         # (event, real coordinates of its target before it, clean)
+
+
+def sync(L):
+    """model := real (used for meshes handed out by a producer, and after a reported violation)"""
+    rv, dts = read_vertices(L.real)
+    L.V = [None if p is None else frs(p) for p in rv]
+    L.el = read_elements(L.real)
+    L.attrs = attr_digest(L.real)
+    L.mtype = type(L.real).__name__
+    if "float32" in dts:
+        L.tol = max(L.tol, 1e-5)
+    ok64 = dts <= {"float64"}
+    L.exact = bool(ok64 and all(p is not None and all(small_dyadic(c) for c in p) for p in L.V))
+
+
+def sync_all(st):
+    for L in st.live:
+        sync(L)
+    for c in st.callers:
+        c.snap = c.arr.copy()
+
+
+def make(task, ctx):
+    from mc.c06_producers import PRODUCERS
+    st = St()
+    for name in task["start"]:
+        b = PRODUCERS[name](ctx)
+        off = len(st.live)
+        for m, label in b.meshes:
+            L = Live()
+            L.real, L.label, L.kind, L.parents, L.tol = m, label, "base", [], 1e-9
+            sync(L)
+            st.live.append(L)
+        for i, j, label in b.links:
+            st.links.append((("m", off + i), ("m", off + j), label))
+            if label == "merge":
+                st.live[off + j].kind = "merge"
+                st.live[off + j].parents.append(off + i)
+        for arr, owner, label in b.callers:
+            c = Caller()
+            c.arr, c.snap, c.owner, c.label = arr, arr.copy(), off + owner, label
+            st.callers.append(c)
+            st.links.append((("m", off + owner), ("c", len(st.callers) - 1), "caller:" + label))
+    return st
+
+
+def state_key(st):
+    body = canon([L.real for L in st.live], [c.arr for c in st.callers], skip_attrs=("type",))
+    mod = tuple((L.label, L.kind, tuple(L.parents), L.exact, L.tol, L.mtype, tuple(L.V),
+                 tuple(sorted((k, tuple(v)) for k, v in L.el.items()))) for L in st.live)
+    k = (body, mod)
+    return (hash(k), hash((k, 1)))
+
+
+# ---------------------------------------------------------------------------------------------------
+# who introduced the sharing?  (harness bookkeeping on the derivation graph, not part of the oracle)
+def link_toward(st, src, dst):
+    """label of the last edge on a shortest derivation path src -> dst, or None"""
+    if src == dst:
+        return None
+    adj = {}
+    for a, b, lab in st.links:
+        adj.setdefault(a, []).append((b, lab))
+        adj.setdefault(b, []).append((a, lab))
+    seen = {src}
+    q = deque([src])
+    while q:
+        n = q.popleft()
+        for nb, lab in sorted(adj.get(n, ()), key=repr):
+            if nb in seen:
+                continue
+            if nb == dst:
+                return lab
+            seen.add(nb)
+            q.append(nb)
+    return None
+
+
+def blame_cross(st, src, dst):
+    lab = link_toward(st, src, dst)
+    if lab is None:
+        return "C06.transform.isolation", "unrelated_objects_share_coordinate_storage"
+    if lab == "merge":
+        return "C06.merge.isolation", "merge:result_shares_coordinate_storage_with_input"
+    if lab == "copy":
+        return "C06.copy.no_shared_state", "copy:shares_coordinate_storage_with_source"
+    if lab.startswith("caller:"):
+        return "C06.transform.isolation", lab[7:] + ":mesh_shares_coordinate_storage_with_caller_array"
+    return "C06.transform.isolation", lab + ":result_shares_coordinate_storage_with_source"
+
+
+def blame_within(st, x, i, j):
+    L = st.live[x]
+    if L.kind == "copy":
+        s = L.parents[0]
+        sv = st.live[s].real.vertices
+        if i < len(sv) and j < len(sv) and vptr(sv[i]) == vptr(sv[j]):
+            return blame_within(st, s, i, j)
+        return "C06.copy.no_shared_state", "copy:two_vertex_ids_share_one_coordinate_storage"
+    if L.kind == "merge":
+        loc, off = {}, 0
+        for occ, p in enumerate(L.parents):
+            n = len(st.live[p].V)
+            for t in (i, j):
+                if off <= t < off + n:
+                    loc[t] = (occ, p, t - off)
+            off += n
+        if i in loc and j in loc:
+            (oi, pi, si), (oj, pj, sj) = loc[i], loc[j]
+            if oi == oj or (pi == pj and si != sj):
+                return blame_within(st, pi, si, sj)
+            if pi == pj:
+                return "C06.merge.same_mesh_twice", "merge([a,a]):both_occurrences_share_coordinate_storage"
+            return blame_cross(st, ("m", pi), ("m", pj))
+    return "C06.transform.each_vertex_once", L.label + ":two_vertex_ids_share_one_coordinate_storage"
+
+
+# ---------------------------------------------------------------------------------------------------
+# structural check for copy: anything mutable reachable from both meshes
+def _bounds(a):
+    import numpy as np
+    try:
+        from numpy.lib.array_utils import byte_bounds
+    except Exception:                                   # numpy < 2
+        byte_bounds = np.byte_bounds
+    return byte_bounds(a)
+
+
+def mutable_graph(root, stop_ids=None):
+    """-> (ids {id: path}, arrays [(lo, hi, array, path)], shared [path])  (walk stops at objects in stop_ids)"""
+    import numpy as np, enum, types
+    ids, arrays, shared = {}, [], []
+    seen = set()
+    stack = [(root, "")]
+    atom = (type(None), bool, int, float, complex, str, bytes, Fr, type, enum.Enum, np.generic, range,
+            types.ModuleType, types.FunctionType, types.BuiltinFunctionType, types.MethodType)
+    while stack:
+        x, path = stack.pop()
+        if isinstance(x, atom):
+            continue
+        if id(x) in seen:
+            continue
+        seen.add(id(x))
+        if stop_ids is not None and id(x) in stop_ids and not isinstance(x, tuple):
+            shared.append(path)
+            continue
+        if isinstance(x, np.ndarray):
+            ids[id(x)] = path
+            if x.size:
+                lo, hi = _bounds(x)
+                arrays.append((lo, hi, x, path))
+            if x.dtype == object:
+                for k, v in enumerate(x.ravel().tolist()):
+                    stack.append((v, f"{path}[{k}]"))
+            continue
+        if isinstance(x, tuple):
+            for k, v in enumerate(x):
+                stack.append((v, f"{path}[{k}]"))
+            continue
+        ids[id(x)] = path
+        if isinstance(x, list):
+            for k, v in enumerate(x):
+                stack.append((v, f"{path}[{k}]"))
+        elif isinstance(x, dict):
+            for k, v in x.items():
+                stack.append((k, f"{path}<key>"))
+                stack.append((v, f"{path}[{k!r}]"))
+        elif isinstance(x, (set, frozenset)):
+            for v in x:
+                stack.append((v, f"{path}<elem>"))
+        else:
+            d = getattr(x, "__dict__", None)
+            if d:
+                for k in sorted(d):
+                    stack.append((d[k], f"{path}.{k}" if path else k))
+    return ids, arrays, shared
+
+
+def shared_state(a, b):
+    """paths (in b) of mutable objects / array memory reachable from both a and b"""
+    import numpy as np
+    ids_a, arr_a, _ = mutable_graph(a)
+    _, arr_b, shared = mutable_graph(b, stop_ids=ids_a)
+    for lo, hi, x, path in arr_b:
+        for lo2, hi2, y, _p in arr_a:
+            if lo < hi2 and lo2 < hi and np.shares_memory(x, y):
+                shared.append(path)
+                break
+    return sorted(set(shared))
+
+
+# ---------------------------------------------------------------------------------------------------
+class Run:
+    def __init__(self, task, rep: Report, ctx):
+        self.task, self.rep, self.ctx = task, rep, ctx
+        self.menu = MENUS[task.get("menu", "full")]
+        self.hist = ()
+        self.reported = {}
+
+    # -- reporting -------------------------------------------------------------------------------
+    def viol(self, sub, callee, kind, icls, detail):
+        fp = (sub, callee, kind, icls)
+        c = self.reported.get(fp, 0)
+        self.reported[fp] = c + 1
+        if c >= 2:
+            self.rep.fp_counts[fp] = self.rep.fp_counts.get(fp, 0) + 1      # counted, detail not repeated
+            return
+        d = {"start": self.task["start"], "history": [list(e) for e, _ in self.hist]}
+        d.update(detail)
+        self.rep.violation(sub, callee, kind, icls, d)
+
+    # -- events ----------------------------------------------------------------------------------
+    def events_of(self, st):
+        mn = self.menu
+        n = len(st.live)
+        evs = []
+        for i in range(n):
+            for t in mn["translate"]:
+                evs.append(("translate", i, t))
+        for i in range(n):
+            for r in mn["rotate"]:
+                evs.append(("rotate", i, r))
+            for s in mn["scale"]:
+                evs.append(("scale", i, s))
+            for s in mn["scale_xyz"]:
+                evs.append(("scale_xyz", i, s))
+            for c in mn["normalize"]:
+                evs.append(("normalize", i, c))
+            if mn["to_origin"]:
+                evs.append(("to_origin", i))
+            for d in mn["flatten"]:
+                evs.append(("flatten", i, d))
+            if mn["touch"]:
+                evs.append(("touch", i))
+        if n < MAX_LIVE:
+            for i in range(n):
+                for ca, cc in mn["copy"]:
+                    evs.append(("copy", i, ca, cc))
+            for i in range(n):
+                evs.append(("merge", (i, i)))
+            for i in range(n):
+                for j in range(n):
+                    if i != j:
+                        evs.append(("merge", (i, j)))
+            if mn["merge3"] and n >= 2:
+                evs.append(("merge", (0, 1, 0)))
+        return evs
+
+    # -- comparing every live object with its model ----------------------------------------------
+    def compare_all(self, st, ev, targets, skip=()):
+        """-> True if anything was reported.  targets = indices of the meshes the event is allowed to change"""
+        import numpy as np
+        rep = self.rep
+        kind = ev[0]
+        callee = CALLEE[kind]
+        bad = False
+        mism = []                                   # (mesh index, vertex index, real, model)
+        for y, L in enumerate(st.live):
+            if y in skip:
+                continue
+            rep.evaluations += 1
+            rv, _ = read_vertices(L.real)
+            if len(rv) != len(L.V):
+                self.viol(f"C06.{kind}.isolation" if y not in targets else "C06.transform.map", callee,
+                          "mismatch:vertex_count", "producer=" + L.label,
+                          {"event": list(ev), "mesh": y, "got": len(rv), "want": len(L.V)})
+                bad = True
+                continue
+            for j, (p, q) in enumerate(zip(rv, L.V)):
+                if p is None or q is None:
+                    if (p is None) != (q is None):
+                        mism.append((y, j, p, q))
+                    continue
+                if L.exact:
+                    ok = Fr(p[0]) == q[0] and Fr(p[1]) == q[1] and Fr(p[2]) == q[2]
+                    rep.count("exact_comparisons")
+                else:
+                    ok = close(p[0], q[0], L.tol) and close(p[1], q[1], L.tol) and close(p[2], q[2], L.tol)
+                if not ok:
+                    mism.append((y, j, p, q))
+            el = read_elements(L.real)
+            if el != L.el:
+                self.viol(f"C06.{kind}.elements", callee, "side_effect:elements_changed", "producer=" + L.label,
+                          {"event": list(ev), "mesh": y, "got": el, "want": L.el})
+                bad = True
+            dg = attr_digest(L.real)
+            if dg != L.attrs:
+                if y in targets:
+                    L.attrs = dg
+                else:
+                    lab = link_toward(st, ("m", targets[0]), ("m", y)) if targets else None
+                    self.viol("C06.transform.isolation" if kind in TRANSFORMS else f"C06.{kind}.isolation",
+                              PRIMITIVE.get(kind, callee), "side_effect:other_mesh_attribute_changed",
+                              (lab or "unrelated") + ":result_coordinates_are_views_of_an_attribute_of_the_source",
+                              {"event": list(ev), "changed_mesh": y, "changed_mesh_producer": L.label,
+                               "attributes": [(c, a) for c, a, _ in dg]})
+                    bad = True
+        cmis = []
+        for k, c in enumerate(st.callers):
+            rep.evaluations += 1
+            if c.arr.shape != c.snap.shape or c.arr.tobytes() != c.snap.tobytes():
+                cmis.append(k)
+        if not mism and not cmis:
+            return bad
+        # ---- classify: is the wrong value explained by storage shared with a vertex of the target?
+        tgt = targets[0] if (targets and kind in TRANSFORMS) else None
+        slots = {}
+        if tgt is not None:
+            for i, v in enumerate(st.live[tgt].real.vertices):
+                slots.setdefault(vptr(v), []).append(i)
+        done = set()
+        for y, j, p, q in mism:
+            L = st.live[y]
+            others = []
+            if tgt is not None and p is not None:
+                others = [i for i in slots.get(vptr(L.real.vertices[j]), ()) if not (y == tgt and i == j)]
+            det = {"event": list(ev), "mesh": y, "mesh_producer": L.label, "vertex": j, "got": p,
+                   "want": None if q is None else [float(c) for c in q]}
+            if others:
+                if y == tgt:
+                    sub, icls = blame_within(st, y, others[0], j)
+                    vk = "mismatch:vertex_moved_twice"
+                else:
+                    sub, icls = blame_cross(st, ("m", tgt), ("m", y))
+                    vk = "side_effect:other_mesh_changed"
+                det.update(target=tgt, target_producer=st.live[tgt].label, shares_storage_with_target_vertex=others[0])
+                fp = (sub, PRIMITIVE[kind], vk, icls)
+            elif y in targets and kind in TRANSFORMS:
+                fp = ("C06.transform.map", callee, "mismatch:coordinates", param_class(ev))
+            elif kind in TRANSFORMS:
+                fp = ("C06.transform.isolation", callee, "side_effect:other_mesh_changed", "no_shared_storage")
+            else:
+                fp = (f"C06.{kind}.isolation", callee, "side_effect:input_changed", "mesh=" + L.mtype)
+            if fp not in done:
+                done.add(fp)
+                self.viol(*fp, det)
+        for k in cmis:
+            c = st.callers[k]
+            rows = [r for r in range(c.arr.shape[0]) if c.arr[r].tobytes() != c.snap[r].tobytes()] if c.arr.ndim == 2 else [0]
+            explained = False
+            if tgt is not None:
+                base = c.arr.__array_interface__["data"][0]
+                for r in rows:
+                    pr = base + (r * c.arr.strides[0] if c.arr.ndim == 2 else 0)
+                    if pr in slots:
+                        explained = True
+            det = {"event": list(ev), "caller_array_of": c.label, "rows_changed": rows, "now": c.arr.tolist(),
+                   "was": c.snap.tolist()}
+            if explained:
+                sub, icls = blame_cross(st, ("m", tgt), ("c", k))
+                fp = (sub, PRIMITIVE[kind], "side_effect:caller_array_changed", icls)
+            else:
+                fp = (f"C06.{kind}.isolation" if kind not in TRANSFORMS else "C06.transform.isolation", callee,
+                      "side_effect:caller_array_changed", "no_shared_storage")
+            if fp not in done:
+                done.add(fp)
+                self.viol(*fp, det)
+        return True
+
+    # -- one event -------------------------------------------------------------------------------
+    def apply(self, st, ev, check, resync=False):
+        """real call + model step (+ all comparisons when check).  Returns True when the models had to be
+        re-synchronised (recorded in the history and re-applied on replay)."""
+        kind = ev[0]
+        if kind in TRANSFORMS:
+            bad = self._transform(st, ev, check)
+        elif kind == "copy":
+            bad = self._copy(st, ev, check)
+        elif kind == "merge":
+            bad = self._merge(st, ev, check)
+        elif kind == "touch":
+            bad = self._touch(st, ev, check)
+        else:
+            raise AssertionError(ev)
+        if bad or resync:
+            sync_all(st)
+        return bad
+
+    def _real_args(self, ev):
+        from mouette import Vec
+        kind = ev[0]
+        if kind == "translate":
+            t = TVEC[ev[2]]
+            v = Vec(float(t[0]), float(t[1]), float(t[2]))
+            return (v,), {}, [(v, [float(c) for c in t])]
+        if kind == "rotate":
+            r, o = rot_real(ev[2])
+            return (r,) if o is None else (r, o), {}, ([] if o is None else [(o, [float(c) for c in GORIG])])
+        if kind == "scale":
+            s, og = SCALES[ev[2]]
+            if og is None:
+                return (float(s),), {}, []
+            o = Vec(float(og[0]), float(og[1]), float(og[2]))
+            return (float(s), o), {}, [(o, [float(c) for c in og])]
+        if kind == "scale_xyz":
+            f, og = XYZ[ev[2]]
+            if og is None:
+                return (float(f[0]), float(f[1]), float(f[2])), {}, []
+            o = Vec(float(og[0]), float(og[1]), float(og[2]))
+            return (float(f[0]), float(f[1]), float(f[2]), o), {}, [(o, [float(c) for c in og])]
+        if kind == "normalize":
+            return (), {"center_at_zero": ev[2]}, []
+        if kind == "to_origin":
+            return (), {}, []
+        if kind == "flatten":
+            return (ev[2],), {}, []
+        raise AssertionError(ev)
+
+    def _transform(self, st, ev, check):
+        import mouette as M
+        rep = self.rep
+        kind, i = ev[0], ev[1]
+        X = st.live[i]
+        fn = {"translate": M.transform.translate, "rotate": M.transform.rotate, "scale": M.transform.scale,
+              "scale_xyz": M.transform.scale_xyz, "normalize": M.transform.normalize,
+              "to_origin": M.transform.translate_to_origin, "flatten": M.transform.flatten}[kind]
+        before, _ = read_vertices(X.real)
+        a, kw, watch = self._real_args(ev)
+        o = call(fn, X.real, *a, **kw)
+        prev = st.prev
+        st.prev = (ev, before, False)
+        if not o.ok:
+            if check:
+                rep.outcome(kind, "raises:" + o.exc)
+                _, dts = read_vertices(X.real)
+                icls = ("vertex_dtype=" + "+".join(sorted(dts))) if not dts <= {"float64", "float32"} else "producer=" + X.label
+                self.viol(f"C06.{kind}.answers", CALLEE[kind], "raises:" + o.exc, icls,
+                          {"event": list(ev), "mesh_producer": X.label, "msg": o.msg})
+            return True
+        if any(p is None for p in X.V):
+            return True
+        newV, exact_op = model_map(ev, X.V)
+        X.V = newV
+        X.exact = bool(X.exact and exact_op and all(small_dyadic(c) for p in newV for c in p))
+        if not check:
+            return False
+        rep.flag("event:" + kind)
+        rep.count("transform_events")
+        bad = self.compare_all(st, ev, [i])
+        for arr, want in watch:
+            if [float(c) for c in arr] != want:
+                self.viol("C06.transform.isolation", CALLEE[kind], "side_effect:argument_changed", param_class(ev),
+                          {"event": list(ev), "now": [float(c) for c in arr], "was": want})
+                bad = True
+        rep.outcome(kind, "violation" if bad else ("returns_same_object" if o.value is X.real else "returns_other_object"))
+        if bad:
+            return True
+        st.prev = (ev, before, True)
+        after, _ = read_vertices(X.real)
+        if kind == "normalize":
+            rep.evaluations += 1
+            rep.count("normalize_box_checks")
+            mn = [min(p[r] for p in after) for r in range(3)]
+            mx = [max(p[r] for p in after) for r in range(3)]
+            ext = max(mx[r] - mn[r] for r in range(3))
+            tol = 100 * X.tol
+            if ev[2]:
+                okb = abs(ext - 2) <= tol and all(abs(mn[r] + mx[r]) <= tol for r in range(3))
+            else:
+                okb = abs(ext - 1) <= tol and all(abs(mn[r]) <= tol for r in range(3))
+            if not okb:
+                self.viol("C06.normalize.box", CALLEE[kind], "mismatch:bounding_box", param_class(ev),
+                          {"event": list(ev), "min": mn, "max": mx, "mesh_producer": X.label})
+                return True
+        if prev is not None and prev[2] and is_inverse(prev[0], ev):
+            rep.evaluations += 1
+            rep.count("inverse_pair_checks")
+            was = prev[1]
+            if X.exact:
+                same = after == was
+            else:
+                same = len(after) == len(was) and all(
+                    abs(p[r] - q[r]) <= 10 * X.tol * max(1.0, abs(q[r])) for p, q in zip(after, was) for r in range(3))
+            if not same:
+                self.viol("C06.transform.inverse_pair", CALLEE[kind], "mismatch:not_restored", param_class(ev),
+                          {"events": [list(prev[0]), list(ev)], "before": was, "after": after, "mesh_producer": X.label})
+                return True
+        return False
+
+    def _touch(self, st, ev, check):
+        X = st.live[ev[1]]
+        m = X.real
+        st.prev = None
+        outs = []
+        if hasattr(m, "connectivity"):
+            outs.append(call(lambda: m.connectivity.vertex_to_vertices(0)).ok)
+        if hasattr(m, "boundary_vertices"):
+            outs.append(call(lambda: list(m.boundary_vertices)).ok)
+            outs.append(call(m.is_triangular).ok)
+        if not check:
+            return False
+        self.rep.flag("event:touch")
+        self.rep.outcome("touch", str(outs))
+        return self.compare_all(st, ev, [ev[1]])
+
+    def _new_live(self, st, real, kind, parents, label):
+        L = Live()
+        L.real, L.label, L.kind, L.parents = real, label, kind, list(parents)
+        L.tol = max(st.live[p].tol for p in parents)
+        sync(L)                                      # elements / attributes / class as observed; V and exact set by the caller
+        L.tol = max(L.tol, max(st.live[p].tol for p in parents))
+        st.live.append(L)
+        for p in dict.fromkeys(parents):
+            st.links.append((("m", p), ("m", len(st.live) - 1), kind))
+        return L
+
+    def _copy(self, st, ev, check):
+        import mouette as M
+        rep = self.rep
+        _, i, ca, cc = ev
+        X = st.live[i]
+        st.prev = None
+        o = call(M.mesh.copy, X.real, copy_attributes=ca, copy_connectivity=cc)
+        flags = f"copy_attributes={ca},copy_connectivity={cc}"
+        if not o.ok:
+            if check:
+                rep.outcome("copy", "raises:" + o.exc)
+                self.viol("C06.copy.answers", "mesh.copy", "raises:" + o.exc, f"mesh={X.mtype}:{flags}",
+                          {"event": list(ev), "mesh_producer": X.label, "msg": o.msg})
+            return True
+        c = o.value
+        L = self._new_live(st, c, "copy", [i], "copy")
+        observedV = L.V
+        L.V = list(X.V)
+        L.exact = X.exact
+        if not check:
+            return False
+        rep.flag("event:copy")
+        rep.flag(f"copy:{flags}")
+        rep.evaluations += 4
+        bad = False
+        skip = ()
+        if type(c).__name__ != X.mtype:
+            self.viol("C06.copy.type", "mesh.copy", "mismatch:class", f"mesh={X.mtype}", {"event": list(ev), "got": type(c).__name__})
+            bad = True
+        sv, _ = read_vertices(X.real)
+        cv, _ = read_vertices(c)
+        if sv != cv:
+            self.viol("C06.copy.equal", "mesh.copy", "mismatch:coordinates", flags,
+                      {"event": list(ev), "mesh_producer": X.label, "source": sv, "copy": cv})
+            bad, skip = True, (len(st.live) - 1,)
+        se, ce = read_elements(X.real), read_elements(c)
+        if se != ce:
+            self.viol("C06.copy.equal", "mesh.copy", "mismatch:elements", flags,
+                      {"event": list(ev), "mesh_producer": X.label, "source": se, "copy": ce})
+            bad = True
+            L.el = se
+        if ca and attr_digest(c) != attr_digest(X.real):
+            self.viol("C06.copy.equal", "mesh.copy", "mismatch:attributes", flags,
+                      {"event": list(ev), "mesh_producer": X.label,
+                       "source": [(a, b) for a, b, _ in attr_digest(X.real)], "copy": [(a, b) for a, b, _ in attr_digest(c)]})
+            bad = True
+        sh = shared_state(X.real, c)
+        rep.outcome("copy", (flags, "shared" if sh else "disjoint"))
+        if sh:
+            tops = sorted({p.split(".")[0].split("[")[0] for p in sh})
+            self.viol("C06.copy.no_shared_state", "mesh.copy", "side_effect:shared_mutable_state",
+                      "shared=" + "+".join(tops) + (":copy_connectivity=True" if cc else ""),
+                      {"event": list(ev), "mesh_producer": X.label, "shared_paths_in_copy": sh[:10]})
+            rep.count("copy_shared_state_reports")      # structural: the models are not touched
+        bad = self.compare_all(st, ev, [len(st.live) - 1], skip=skip) or bad
+        return bad
+
+    def _merge(self, st, ev, check):
+        import mouette as M
+        rep = self.rep
+        idxs = list(ev[1])
+        ins = [st.live[k] for k in idxs]
+        st.prev = None
+        o = call(M.mesh.merge, [x.real for x in ins])
+        shape = "same_mesh_twice" if len(set(idxs)) < len(idxs) else "distinct"
+        if not o.ok:
+            if check:
+                rep.outcome("merge", "raises:" + o.exc)
+                self.viol("C06.merge.answers", "mesh.merge", "raises:" + o.exc,
+                          "inputs=" + "+".join(x.mtype for x in ins) + ":" + shape,
+                          {"event": list(ev), "producers": [x.label for x in ins], "msg": o.msg})
+            return True
+        z = o.value
+        L = self._new_live(st, z, "merge", idxs, "merge")
+        L.V = [p for x in ins for p in x.V]
+        L.exact = all(x.exact for x in ins)
+        if not check:
+            return False
+        rep.flag("event:merge")
+        rep.flag("merge:" + shape)
+        rep.flag("merge:" + "+".join(sorted({x.mtype for x in ins})))
+        rep.evaluations += 3
+        bad = False
+        skip = ()
+        icls = "inputs=" + "+".join(sorted({x.mtype for x in ins})) + ":" + shape
+        want_type = max((x.mtype for x in ins), key=ORDER.index)
+        if type(z).__name__ != want_type:
+            self.viol("C06.merge.type", "mesh.merge", "mismatch:class", icls, {"event": list(ev), "got": type(z).__name__, "want": want_type})
+            bad = True
+        zv, _ = read_vertices(z)
+        wv = [p for x in ins for p in read_vertices(x.real)[0]]
+        if zv != wv:
+            self.viol("C06.merge.union", "mesh.merge", "mismatch:coordinates", icls,
+                      {"event": list(ev), "producers": [x.label for x in ins], "got": zv, "want": wv})
+            bad, skip = True, (len(st.live) - 1,)
+        want = {"edges": [], "faces": [], "cells": []}
+        off = 0
+        for x in ins:
+            el = read_elements(x.real)
+            for nm in want:
+                for e in el.get(nm, ()):
+                    want[nm].append(tuple(u + off for u in e))
+            off += len(x.V)
+        got = read_elements(z)
+        norm = {"edges": lambda e: tuple(sorted(e)), "faces": cyc, "cells": lambda c: c}
+        for nm in ("edges", "faces", "cells"):
+            g = sorted(norm[nm](e) for e in got.get(nm, ()))
+            w = sorted(norm[nm](e) for e in want[nm])
+            if g != w:
+                self.viol("C06.merge.union", "mesh.merge", "mismatch:" + nm, icls,
+                          {"event": list(ev), "producers": [x.label for x in ins], "got": got.get(nm), "want": want[nm]})
+                bad = True
+        rep.outcome("merge", (icls, "violation" if bad else "ok"))
+        bad = self.compare_all(st, ev, [len(st.live) - 1], skip=skip) or bad
+        return bad
+
+    # -- search ----------------------------------------------------------------------------------
+    def replay(self, hist):
+        st = make(self.task, self.ctx)
+        for ev, rs in hist:
+            self.apply(st, ev, False, resync=rs)
+        return st
+
+    def initial_checks(self, st):
+        """the producer's own output: every caller array still holds what the caller put there"""
+        self.rep.flag("types:" + "+".join(L.mtype for L in st.live))
+        for L in st.live:
+            self.rep.flag("class:" + L.mtype)
+            if L.exact:
+                self.rep.flag("exact_start")
+            else:
+                self.rep.flag("inexact_start")
+        if st.callers:
+            self.rep.flag("caller_arrays")
+
+    def explore(self):
+        rep = self.rep
+        depth = self.task["depth"]
+        st = make(self.task, self.ctx)
+        self.initial_checks(st)
+        k0 = state_key(st)
+        seen = {k0}
+        states, transitions = 1, 0
+        frontier = deque([((), k0)])
+        while frontier:
+            hist, kk = frontier.popleft()
+            st = self.replay(hist)
+            if state_key(st) != kk:
+                raise RuntimeError(f"replay divergence: history {hist!r} does not lead back to its recorded state")
+            evs = self.events_of(st)
+            fresh = True
+            for ev in evs:
+                if not fresh:
+                    st = self.replay(hist)
+                if ev[0] == "normalize" and zero_extent(st.live[ev[1]].V):
+                    rep.count("filtered_zero_extent")
+                    fresh = True
+                    continue
+                self.hist = hist + ((ev, False),)
+                bad = self.apply(st, ev, True)
+                transitions += 1
+                k1 = state_key(st)
+                fresh = (k1 == kk) and not bad
+                if k1 in seen:
+                    continue
+                seen.add(k1)
+                states += 1
+                newh = hist + ((ev, bad),)
+                rep.case((tuple(self.task["start"]), tuple(e for e, _ in newh)))
+                if len(st.live) == MAX_LIVE:
+                    rep.flag("live=3")
+                if len(newh) == 3:
+                    rep.sample({"start": self.task["start"], "history": [list(e) for e, _ in newh]})
+                if len(newh) < depth:
+                    frontier.append((newh, k1))
+        rep.states += states
+        rep.transitions += transitions
+        rep.traces += transitions
+        return states, transitions
+
+    def rotsweep(self):
+        rep = self.rep
+        n = 0
+        st0 = make(self.task, self.ctx)
+        targets = sorted({0, len(st0.live) - 1})
+        forms = ["m", "o", "e"]
+        for k, mat in enumerate(AXROT):
+            if mat == ((1, 0, 0), (0, 1, 0), (0, 0, 1)):
+                continue
+            kinv = AXROT.index(_transpose(mat))
+            for fi, form in enumerate(forms):
+                if form == "e" and mat not in SINGLE:
+                    continue
+                form2 = forms[(fi + 1) % 3]
+                if form2 == "e" and _transpose(mat) not in SINGLE:
+                    form2 = "m"
+                for i in targets:
+                    st = make(self.task, self.ctx)
+                    e1 = ("rotate", i, f"{form}:ax{k}:0")
+                    e2 = ("rotate", i, f"{form2}:ax{kinv}:0")
+                    self.hist = ((e1, False),)
+                    b1 = self.apply(st, e1, True)
+                    self.hist = ((e1, b1), (e2, False))
+                    self.apply(st, e2, True)
+                    n += 2
+                    rep.case((tuple(self.task["start"]), e1, e2))
+        rep.transitions += n
+        rep.traces += n // 2
+        rep.states += n
+        rep.count("rotsweep_histories", n // 2)
+
+
+# ------------------------------------------------------------------------------------------------
+def run_task(task, rep: Report):
+    import mouette  # noqa: F401  (binds the repository under test)
+    from mc.c06_producers import write_files
+    d = tempfile.mkdtemp(prefix="c06_", dir="/dev/shm")
+    try:
+        write_files(d)
+        r = Run(task, rep, Ctx(d))
+        if task["kind"] == "bfs":
+            s, t = r.explore()
+            rep.count("states:menu=%s:depth=%d" % (task["menu"], task["depth"]), s)
+            for n in task["start"]:
+                rep.flag("producer:" + n)
+            rep.count("bfs_tasks")
+        else:
+            r.rotsweep()
+    finally:
+        shutil.rmtree(d, ignore_errors=True)
+
+
+def finish(tier, rep: Report):
+    from mc.c06_producers import PRODUCERS
+    fails = []
+    want = len(tasks(tier))
+    ran = rep.counters.get("bfs_tasks", 0)
+    if ran < len(PRODUCERS):
+        return fails                                     # --only run: the guards below are about the full sweep
+    for n in PRODUCERS:
+        if "producer:" + n not in rep.flags:
+            fails.append("producer never explored: " + n)
+    for k in TRANSFORMS + ("copy", "merge", "touch"):
+        if "event:" + k not in rep.flags:
+            fails.append("event kind never executed: " + k)
+    for f in ("class:PointCloud", "class:PolyLine", "class:SurfaceMesh", "class:VolumeMesh", "live=3", "merge:same_mesh_twice",
+              "merge:distinct", "exact_start", "inexact_start", "caller_arrays",
+              "copy:copy_attributes=True,copy_connectivity=True", "copy:copy_attributes=False,copy_connectivity=False"):
+        if f not in rep.flags:
+            fails.append("coverage flag missing: " + f)
+    for c in ("exact_comparisons", "inverse_pair_checks", "normalize_box_checks", "rotsweep_histories", "transform_events"):
+        if rep.counters.get(c, 0) == 0:
+            fails.append("never evaluated: " + c)
+    if not any(f.startswith("merge:") and "+" in f for f in rep.flags):
+        fails.append("no merge of meshes of different classes")
+    return fails
